@@ -17,6 +17,18 @@ CStoreAct(rec, act) == rec.act = act
 CStoreReward(rec, r) == rec.r = r
 CStoreNext(rec, nxt) == rec.next = nxt
 CStoreTerm(rec, term) == rec.term = term
+(* A step may return BOTH flags at once (a terminal state reached on the very step a time limit expires: gymnasium's
+   TimeLimit sets truncated regardless of terminated).  For such a step
+     - storing: the kept flag is the TERMINATION flag of that step, i.e. TRUE (CStoreTerm; neither `term \/ trunc`
+       for a merely truncated step nor `term /\ ~trunc` for a step with both flags),
+     - bootstrapping: a kept transition may bootstrap from its successor iff its kept flag is FALSE, so the learner
+       bootstraps through a step iff the environment did not report termination (CBootstrapFaithful),
+     - episode ending: the episode is over - exactly ONE episode ends, and the environment must be reset before the
+       next step (CEpisodeEnds, CEpisodesEnded). *)
+CEpisodeEnds(term, trunc) == term \/ trunc
+CEpisodesEnded(term, trunc) == IF CEpisodeEnds(term, trunc) THEN 1 ELSE 0
+CMayBootstrap(rec) == ~rec.term
+CBootstrapFaithful(rec, term) == CMayBootstrap(rec) = ~term
 CStoreMatches(rec, before, act, rs) ==
   /\ CStoreObs(rec, before) /\ CStoreAct(rec, act) /\ CStoreReward(rec, rs.r)
   /\ CStoreNext(rec, rs.obs) /\ CStoreTerm(rec, rs.term)
@@ -62,4 +74,10 @@ CIsMaximiser(row, a) == a \in 1..Len(row) /\ \A j \in 1..Len(row) : row[j] <= ro
 CMaximisers(row) == {a \in 1..Len(row) : CIsMaximiser(row, a)}
 (* C10 on float32 ordinals (device D4): lo - k <= a <= hi + k in units of ulp *)
 CInBounds(a, lo, hi, k) == \A d \in 1..Len(a) : lo[d] - k <= a[d] /\ a[d] <= hi[d] + k
+(* C10, last clause: the action passed to the environment is Clip(policy action + sigma * half range * n), n standard
+   Gaussian noise, sigma the CONFIGURED exploration noise level.  With sigma = 0 the perturbation vanishes whatever n
+   is: the environment receives exactly the (clipped) action of the live policy at the observation it returned last.
+   a, pol, lo, hi: float32 ordinals (device D4; clipping is monotone, so it commutes with the ordinal coding). *)
+CClip(x, lo, hi) == IF x < lo THEN lo ELSE IF x > hi THEN hi ELSE x
+CUnperturbed(a, pol, lo, hi) == Len(a) = Len(pol) /\ \A d \in 1..Len(a) : a[d] = CClip(pol[d], lo[d], hi[d])
 =============================================================================
